@@ -204,7 +204,9 @@ def _candidate_nicks(cand_names: Dict[Candidate, str]) -> Dict[Candidate, str]:
 
 
 def _name_to_initials(name: str) -> str:
-    return ''.join(part[0].lower() for part in re.split(r'\W', name))
+    return ''.join(
+        part[0].lower() for part in re.split(r'\W', name) if part
+    )
 
 
 def _ordinal_candidate_nicks(cand_names: Collection[Candidate]
